@@ -20,7 +20,8 @@ Lemma lowered_wf : hist_wf lowered_while_queued.
 Proof. unfold lowered_while_queued. wf_tac. Qed.
 Lemma lowered_small : hist_small lowered_while_queued.
 Proof. unfold lowered_while_queued. small_tac. Qed.
-Lemma lowered_refutes : sizes_within_tolerated Sv (snd (urun lowered_while_queued)) = false.
+(* since DATA is split again when it is released the old counterexample is handled correctly *)
+Lemma lowered_now_fine : sizes_within_tolerated Sv (snd (urun lowered_while_queued)) = true.
 Proof. vm_compute. reflexivity. Qed.
 
 Definition two_initial_windows : list event :=
